@@ -191,8 +191,17 @@ def _ens_penalty(x):
     return dsl.ev(_ENS_PEN[0], [float(v) for v in np.ravel(x)])
 
 
-def ensemble_case(rng):
-    """C01 for ensembles of solvers: the reported best is an evaluated point carrying its own cost"""
+_ENS_CON = [None]
+
+
+def _ens_constraints(x):
+    return dsl.con_apply(_ENS_CON[0], [float(v) for v in np.ravel(x)])
+
+
+def ensemble_case(rng, pid="C01"):
+    """C01 for ensembles of solvers: the reported best is an evaluated point carrying its own cost; C02: every member
+    evaluates inside the ensemble's strict ranges; C03: every member evaluates only points the ensemble's constraints
+    leave unchanged - whether the nested solver is given as a class or as a configured instance"""
     common.import_mystic()
     from mystic.solvers import LatticeSolver, BuckshotSolver, DifferentialEvolutionSolver, DifferentialEvolutionSolver2, NelderMeadSimplexSolver, PowellDirectionalSolver
     from mystic.termination import VTR
@@ -221,16 +230,42 @@ def ensemble_case(rng):
     _ENS_PEN[0] = pen
     if pen is not None:
         s.SetPenalty(_ens_penalty)           # the ensemble's penalty must reach every member
+    con = None
+    if pid == "C03" or (pid == "C02" and rng.random() < 0.3):
+        con = solvergen.gen_constraints(rng, dim, (lo, hi))
+        _ENS_CON[0] = con
+        s.SetConstraints(_ens_constraints)   # the ensemble's constraints must reach every member
     s.SetStrictRanges(lo, hi)
     s.SetEvaluationLimits(generations=rng.choice([2, 3, 5, 8]))
     case = {"ensemble": kind, "nested": nested, "nested_is_instance": instance, "dim": dim, "cost": dsl.expr_sexp(cost_spec[1]),
-            "penalty": dsl.expr_sexp(pen) if pen is not None else None, "lo": lo, "hi": hi}
+            "penalty": dsl.expr_sexp(pen) if pen is not None else None, "lo": lo, "hi": hi,
+            "constraints": dsl.con_sexp(con) if con is not None else None}
     try:
         s.Solve(_ens_cost, VTR(1e-8))
     except Exception as exc:
         return [], "%s:%s:raised-%s" % (kind, nested, type(exc).__name__)
     best = [float(v) for v in np.ravel(s.bestSolution)]; e = float(np.ravel(s.bestEnergy)[0])
     case["reported"] = [best, e]; case["real_calls"] = len(_ENS_CALLS)
+    tag = "%s:%s%s%s%s" % (kind, nested, ":instance" if instance else "", ":pen" if pen is not None else "", ":con" if con is not None else "")
+    if pid in ("C02", "C03"):
+        # the box / constraints clauses on every real cost call of every member
+        for xv, _ in _ENS_CALLS:
+            if pid == "C02" and not all(l <= v <= h for v, l, h in zip(xv, lo, hi)):
+                out.append(("ensemble/%s-%s/evaluated-outside-box" % (kind, nested), "a member of the ensemble called the cost at %r, outside the ensemble's strict ranges [%r, %r]" % (xv, lo, hi), case))
+                break
+            if pid == "C03" and con is not None and not common.same_vec(dsl.con_apply(con, xv), xv):
+                out.append(("ensemble/%s-%s/evaluated-unconstrained-point" % (kind, nested), "a member of the ensemble called the cost at %r, which the ensemble's constraints map to %r" % (xv, dsl.con_apply(con, xv)), case))
+                break
+        # the reported best: a member given as a configured INSTANCE has no constraints / ranges of its own (they act inside
+        # the decorated cost it is handed), so with constraints on the ensemble it reports the pre-constraint point (F58)
+        pre = instance and con is not None
+        if pid == "C02" and math.isfinite(e) and nested != "NM" and not all(l <= v <= h for v, l, h in zip(best, lo, hi)):
+            out.append(("ensemble/best-outside-box/nested-instance-keeps-pre-constraint-point" if pre else "ensemble/%s-%s/best-outside-box" % (kind, nested),
+                        "the ensemble reports best %r with finite energy %r outside its strict ranges" % (best, e), case))
+        if pid == "C03" and con is not None and math.isfinite(e) and nested != "NM" and not common.same_vec(dsl.con_apply(con, best), best):
+            out.append(("ensemble/reported-solution-unconstrained/nested-instance-keeps-pre-constraint-point" if pre else "ensemble/%s-%s/reported-solution-unconstrained" % (kind, nested),
+                        "the ensemble reports best %r (energy %r), which its constraints map to %r" % (best, e, dsl.con_apply(con, best)), case))
+        return out, tag
     if any(y != y for _, y in _ENS_CALLS) or not math.isfinite(e):
         return [], "%s:%s:skipped" % (kind, nested)
     if not any(common.same_vec(best, c[0]) for c in _ENS_CALLS):
@@ -499,8 +534,8 @@ def side_cases(pid, seed, shard, k, hist, findings, wlines):
             findings.append(Finding("monitor", key, what, case))
         if req is not None:
             wlines.append(req)
-    if pid == "C01" and k % 2 == 0:
-        res, tag = ensemble_case(rng)
+    if (pid == "C01" and k % 2 == 0) or (pid in ("C02", "C03") and k % 3 == 0):
+        res, tag = ensemble_case(rng, pid)
         hist["ensemble:" + tag] = hist.get("ensemble:" + tag, 0) + 1
         for key, what, case in res:
             findings.append(Finding("monitor", key, what, case))
